@@ -2054,3 +2054,123 @@ c08_aligned!(c08_aligned_i8_q7, i8, 2, 7);
 //@ bounds: 2 elements; query length 8 (per-instance constant); unwind 90
 //@ oracle: (48 + |query| + body_len - payload) % align_of == 0; to_bits equality
 c08_aligned!(c08_aligned_i8_q8, i8, 2, 8);
+
+/// The empty slice between the generic (serde) encoder and the bulk decoder --
+/// the direction in which the two codecs do not share a byte layout: a
+/// serde-driven encoder cannot pick a typed-array header without an element and
+/// emits the empty generic array. No symbolic payload: the empty slice is a single
+/// point of the input space, which the property names explicitly; the real
+/// serde encoder runs inside the model (an empty sequence is within reach).
+fn empty_generic_to_bulk<T: beve::BeveTypedSlice + serde::Serialize>() {
+    let id: u64 = kani::any();
+    let empty: Vec<T> = Vec::new();
+    match Message::builder().id(id).query_str("/v").body_beve(&empty) {
+        Ok(b) => {
+            let m = b.build();
+            kani::cover!(m.body.len() == 2);
+            match m.decode_typed_slice::<T>() {
+                Ok(v) => {
+                    assert!(v.is_empty());
+                    std::mem::forget(v);
+                }
+                Err(ref _e) => assert!(false, "the bulk decoder rejects the generic encoder's empty array"),
+            }
+            std::mem::forget(m);
+        }
+        Err(ref _e) => assert!(false, "generic encoder failed on the empty vector"),
+    }
+    // and the bulk encoder's empty array is still what it was: typed header, length 0
+    let b = Message::builder().id(id).query_str("/v").body_typed_slice::<T>(&empty).build();
+    assert!(b.body.len() == 2 && b.body[1] == 0);
+    match b.decode_typed_slice::<T>() {
+        Ok(v) => {
+            assert!(v.is_empty());
+            std::mem::forget(v);
+        }
+        Err(ref _e) => assert!(false, "the bulk decoder rejects the bulk encoder's empty array"),
+    }
+    std::mem::forget(b);
+    std::mem::forget(empty);
+}
+
+fn empty_generic_to_bulk_complex<T: beve::BeveTypedSlice + serde::Serialize>()
+where
+    beve::Complex<T>: serde::Serialize,
+{
+    let empty: Vec<beve::Complex<T>> = Vec::new();
+    match Message::builder().query_str("/v").body_beve(&empty) {
+        Ok(b) => {
+            let m = b.build();
+            kani::cover!(m.body.len() == 2);
+            match m.decode_complex_slice::<T>() {
+                Ok(v) => {
+                    assert!(v.is_empty());
+                    std::mem::forget(v);
+                }
+                Err(ref _e) => assert!(false, "the complex bulk decoder rejects the generic encoder's empty array"),
+            }
+            std::mem::forget(m);
+        }
+        Err(ref _e) => assert!(false, "generic encoder failed on the empty vector"),
+    }
+    std::mem::forget(empty);
+}
+
+macro_rules! c08_empty {
+    ($name:ident, $f:ident, $t:ty) => {
+        #[kani::proof]
+        #[kani::stub(std::fmt::format, crate::verif_common::format_stub)]
+        #[kani::unwind(20)]
+        fn $name() {
+            $f::<$t>();
+        }
+    };
+}
+
+//@ name: c08_empty_generic_to_bulk_f64
+//@ prop: C08
+//@ tier: quick
+//@ clause: the empty slice: the bulk decoder reads the generic (serde) encoder's output for an empty vector of f64 (and still reads the bulk encoder's)
+//@ funcs: MessageBuilder::body_beve (beve::to_vec, the real serde walk); Message::decode_typed_slice; message::read_typed_slice_body; MessageBuilder::body_typed_slice
+//@ symbolic: request id only -- the empty slice is one point of the input space
+//@ bounds: the empty slice; element type f64
+//@ oracle: Ok(empty) in both directions
+//@ stubs: alloc::fmt::format -> empty String
+//@ replay: playback
+c08_empty!(c08_empty_generic_to_bulk_f64, empty_generic_to_bulk, f64);
+
+//@ name: c08_empty_generic_to_bulk_u8
+//@ prop: C08
+//@ tier: quick
+//@ clause: the empty slice: the bulk decoder reads the generic (serde) encoder's output for an empty vector of u8 (and still reads the bulk encoder's)
+//@ funcs: MessageBuilder::body_beve (beve::to_vec, the real serde walk); Message::decode_typed_slice; message::read_typed_slice_body; MessageBuilder::body_typed_slice
+//@ symbolic: request id only -- the empty slice is one point of the input space
+//@ bounds: the empty slice; element type u8
+//@ oracle: Ok(empty) in both directions
+//@ stubs: alloc::fmt::format -> empty String
+//@ replay: playback
+c08_empty!(c08_empty_generic_to_bulk_u8, empty_generic_to_bulk, u8);
+
+//@ name: c08_empty_generic_to_bulk_i32
+//@ prop: C08
+//@ tier: thorough
+//@ clause: the empty slice: the bulk decoder reads the generic (serde) encoder's output for an empty vector of i32 (and still reads the bulk encoder's)
+//@ funcs: MessageBuilder::body_beve (beve::to_vec, the real serde walk); Message::decode_typed_slice; message::read_typed_slice_body; MessageBuilder::body_typed_slice
+//@ symbolic: request id only -- the empty slice is one point of the input space
+//@ bounds: the empty slice; element type i32
+//@ oracle: Ok(empty) in both directions
+//@ stubs: alloc::fmt::format -> empty String
+//@ replay: playback
+c08_empty!(c08_empty_generic_to_bulk_i32, empty_generic_to_bulk, i32);
+
+//@ name: c08_empty_generic_to_bulk_complex_f32
+//@ prop: C08
+//@ tier: quick
+//@ clause: the empty slice: the complex bulk decoder reads the generic (serde) encoder's output for an empty vector of complex f32 pairs
+//@ funcs: MessageBuilder::body_beve; Message::decode_complex_slice
+//@ symbolic: none -- the empty slice is one point of the input space
+//@ bounds: the empty slice; element type Complex<f32>
+//@ oracle: Ok(empty)
+//@ stubs: alloc::fmt::format -> empty String
+//@ replay: playback
+c08_empty!(c08_empty_generic_to_bulk_complex_f32, empty_generic_to_bulk_complex, f32);
